@@ -12,9 +12,9 @@ META = {
     "claim": "Held on the executed runs: for one-sided histories in both directions from previously synchronised trees, the quiescent trees of both sides equal the dict model of the user's operations exactly, no '.conflicted' name exists, the engine issued no effective (event-producing) mutating call on the origin side after the base tree, and 3 further full rounds after quiescence issue no provider write.",
     "note": "Trusted: engine-issued calls are recognised by the step-context flag of the taps; 'effective' = the provider registered an event for the call. Path-id rename/delete chains within a window are hazard HC (K15), un-isolated folder renames HD (K1), name re-use HF (K2): generated only in the thorough hazard-seeking part.",
     "technique": 'runtime monitoring: exact-mirror tree oracle + call ledger (origin side untouched, no echo) over generated one-sided histories',
-    "plan": {"quick": {"shards": 16, "timeout": 600, "cases": 12000},
-             "thorough": {"shards": 32, "timeout": 3000, "cases": 300000, "seek": 40000}},
-    "rule": "case = one-sided history (family ONE0 local->remote / ONE1 remote->local) from a previously synchronised base "
+    "plan": {"quick": {"shards": 16, "timeout": 600, "cases": 12000, "nest1": 5000},
+             "thorough": {"shards": 32, "timeout": 3000, "cases": 300000, "seek": 40000, "nest1": 100000}},
+    "rule": "[+ NEST1: one user renames/moves folders and works inside them, id-stable acting side, object-graph expectation, failures with two folder renames above a changed file attributed to K1] case = one-sided history (family ONE0 local->remote / ONE1 remote->local, REUSE0/1 taking vacated names again) from a previously synchronised base "
             "tree built on either side, flavour x schedule shape round-robin, 4-12 ops incl. isolated folder renames; "
             "distinct = distinct case signature; non-trivial = >= 1 engine write after the base tree. thorough adds "
             "hazard-seeking one-sided histories (name re-use, un-isolated folder renames) attributed to K1/K2/K13 or reported",
@@ -87,6 +87,33 @@ def shard(ctx, acc):
                 acc.known_hit(ks[0], W.brief_case(case))
             else:
                 acc.violation("seek:" + probs[0][0], probs[:4], case)
+    # NEST1: one user renames / moves folders *and* works inside them (object graph expectation), acting side id-stable.
+    # Measured on the pinned tree (12 000 cases): no failure when the acting side has stable ids and no file has two
+    # folder renames above it (nest.hd2); with hd2, or with a path-id acting side (10-28 % fail), it is K1 territory.
+    from vlib import nest as N
+    for i in F.indices(ctx, plan.get("nest1", 0)):
+        case = N.make_case(ctx.seed, i, ("oo", "of", "fo", "op", "po"), one_sided=True)
+        if case["flavour"][case["actor"]] == "p":
+            acc.count("nest1_skipped_path_id_actor")
+            continue
+        probs, st = N.run_case(case)
+        acc.evaluations += 1
+        acc.count("nest1_cases")
+        acc.count("engine_steps", st["steps"])
+        acc.count("engine_writes", st["writes"])
+        acc.count("user_ops", st["user_ops"])
+        hp = [q for q in probs if str(q[0]).startswith("harness")]
+        if hp:
+            acc.inconclusive.append(str(hp[0])[:200])
+            continue
+        if st["writes"]:
+            acc.sigs.add("nest1:%d" % i)
+        if probs:
+            if N.hd2(case):
+                acc.count("nest1_failures_attributed_K1")
+                acc.known_hit("K1", N.brief(case))
+            else:
+                acc.violation("nest1:" + probs[0][0], probs[:4], case)
     if ctx.shard == 0:
         P.run_probes(PROP, acc, lambda c: run(c, count=False))
 
@@ -96,4 +123,11 @@ def conclusive(acc, tier):
 
 
 coverage_extra = E.coverage_extra
-replay = E.replay_with(lambda c: run(c, count=False))
+def _replay_one(c):
+    if c.get("family") == "NEST1":
+        from vlib import nest as N
+        return N.run_case(c)[0]
+    return run(c, count=False)
+
+
+replay = E.replay_with(_replay_one)
